@@ -4,6 +4,7 @@ import (
 	"fmt"
 	"net"
 	"os"
+	"runtime"
 	"sort"
 	"strconv"
 	"strings"
@@ -250,7 +251,33 @@ func (w *c09world) allowed(nDests, nMsgs int) time.Duration {
 	if nDests < 1 {
 		nDests = 1
 	}
-	return 2*time.Duration(nDests*(1+nMsgs))*w.perConnect() + 5*time.Second
+	return time.Duration(float64(2*time.Duration(nDests*(1+nMsgs))*w.perConnect()+5*time.Second) * c09loadFactor())
+}
+
+var (
+	c09loadOnce sync.Once
+	c09loadF    = 1.0
+)
+
+// c09loadFactor stretches the wall-clock patience of the "returns within the configured time-outs" oracle by how
+// oversubscribed the machine is when the case starts (1 + load average / processors): under a load of 30 on 16
+// processors a send with one dead destination that nominally takes 0.5 s was seen to need more than the 11 s the
+// fixed formula allowed (notes/FALSE_ALARMS.md). A send that hangs is still reported, only later.
+func c09loadFactor() float64 {
+	c09loadOnce.Do(func() {
+		b, err := os.ReadFile("/proc/loadavg")
+		if err != nil {
+			return
+		}
+		f := strings.Fields(string(b))
+		if len(f) == 0 {
+			return
+		}
+		if l, err := strconv.ParseFloat(f[0], 64); err == nil && l > 0 {
+			c09loadF = 1 + l/float64(runtime.NumCPU())
+		}
+	})
+	return c09loadF
 }
 
 func (w *c09world) victim(n int) *c09victim {
